@@ -1023,6 +1023,9 @@ func (db *DB) deleteRows(t *table, victims []row, depth int) error {
 						return err
 					}
 				case "SET NULL":
+					if c, err := other.col(fk.Col); err == nil && c.NotNull {
+						return fmt.Errorf("pgmini: null value in column %q of relation %q violates not-null constraint (ON DELETE SET NULL)", fk.Col, other.def.Name)
+					}
 					for _, r := range hit {
 						r[fk.Col] = nil
 					}
